@@ -175,7 +175,10 @@ def build_case_program(case):
             if prog['traits']:
                 return prog
         return prog
-    return pitgen.gen_valid_program(rng, family=case['family'], opts=opts)
+    prog = pitgen.gen_valid_program(rng, family=case['family'], opts=opts)
+    if k == 'random' and (case.get('prog_seed', 0) // 3) % 6 == 1:
+        pitgen.add_second_output(prog, random.Random(case['prog_seed'] + 1))
+    return prog
 
 
 KNOWN_TAINTS = {'add:cat': 'pit-add-of-concat-not-frozen', 'tcat:cat': 'pit-add-of-concat-not-frozen',
@@ -335,7 +338,7 @@ def run_case(case, ctx):
     xs = pitgen.example_inputs(prog, 3, case['seed'] + 2, scale=1.5)
     try:
         with torch.no_grad():
-            y_nas = pit(*xs)
+            y_nas = pitgen.out_tensor(pit(*xs))
     except Exception as e:
         ctx.violation('pit-forward-crash', {'sig': type(e).__name__, 'exc': repr(e)[:200],
                                             'taints': all_taints, 'traits': prog.get('traits')})
@@ -375,7 +378,7 @@ def run_case(case, ctx):
     pitlib.sync_exported_bn(pit, exported)
     try:
         with torch.no_grad():
-            y = exported(*xs)
+            y = pitgen.out_tensor(exported(*xs))
         ctx.mon('c09.export_forward')
         if y_nas is not None:
             ok, d = pitlib.close(y_nas, y)
